@@ -216,3 +216,15 @@ Lemma toy_stale_answer :
   snd (run_spec nat nat toy_compute toy_eff (toy_prog true) [fun _ => 6]) = [6; 10] /\
   snd (run (toy_inv false) nat nat toy_compute toy_eff (toy_prog false) [fresh nat (fun _ => 6)]) = [6; 10].
 Proof. vm_compute. repeat split; reflexivity. Qed.
+
+Lemma toy_summary :
+  inventory_ok (toy_inv true) = false /\
+  snd (run (toy_inv true) nat nat toy_compute toy_eff (toy_prog true) [fresh nat (fun _ => 6)]) = [6; 6] /\
+  snd (run_spec nat nat toy_compute toy_eff (toy_prog true) [fun _ => 6]) = [6; 10] /\
+  snd (run (toy_inv false) nat nat toy_compute toy_eff (toy_prog false) [fresh nat (fun _ => 6)]) = [6; 10].
+Proof. vm_compute. repeat split; reflexivity. Qed.
+
+(* the pinned inventory (Dataset/HandlePinned.v) satisfies the condition *)
+From Pq Require Import Dataset.HandlePinned.
+Lemma pinned_inventory_ok : inventory_ok pinned_inv = true /\ offenders pinned_inv = [].
+Proof. vm_compute. split; reflexivity. Qed.
